@@ -72,7 +72,7 @@ def run_case(cfg):
     rules = {k: dict(instances=s[0], min_slack_tck=s[1]) for k, s in stats.items()}
     has_ras = any(k.startswith("tRAS") for k in stats)
     has_wr = any(k.startswith("tWR ") for k in stats) or any(e["ap"] for e in tr.ref.wr_log)
-    st = dict(rule_instances=ninst, rules=rules, requirements_tck={k: v_ for k, v_ in req.items()},
+    st = dict(rule_instances=ninst, rules=rules, requirements_tck={k: v_ for k, v_ in req.items() if not k.startswith("_")},
               tck_ns=float(tck_ns), cmds=len(tr.ref.cmds), cycles=tr.cycles, counts=dict(tr.ref.counts),
               controller_cycles={k: getattr(tr.timing, k) for k in ("tRP", "tRCD", "tWR", "tWTR", "tRFC", "tFAW", "tCCD", "tRRD", "tRC", "tRAS")},
               hang=bool(tr.state["hang"]))
